@@ -130,5 +130,159 @@ def target_tokenizer_process():
     return (f"{T.MOD}:{qual}", T.MOD, qual, run)
 
 
+# ------------------------------------------------------------------------------------------------ parser
+from . import parser as PR          # noqa: E402
+from pyvc.symex import Contract, LoopSpec   # noqa: E402
+from pyvc.values import NONE, ClassV, PyList     # noqa: E402
+
+
+def _pcall(ex, qual, st, me, args=(), kwargs=None):
+    fn = find_def(PR.MOD, qual)
+    node = ast.parse("f()").body[0].value
+    node.lineno = fn.lineno
+    return ex.call_funcv(FuncV(fn, PR.MOD, qualname=qual, bound_self=me), list(args), kwargs or {}, None, st, node)
+
+
+def _parser_executor(sess, contracts=("main_loop", "connection", "element", "subcircuit")):
+    from pyvc.symex import Executor
+    ex = Executor(sess, PR.MOD, "Parser")
+    PR.install_common(ex)
+    for n in contracts:
+        if n == "subcircuit":
+            ex.contracts[n] = Contract(n, PR.subcircuit_contract)
+        else:
+            ex.contracts[n] = Contract(n, PR.push_node_contract(n))
+    ex.contracts["new:Series"] = Contract("new:Series", PR.node_ctor("Series"))
+    ex.contracts["new:Parallel"] = Contract("new:Parallel", PR.node_ctor("Parallel"))
+    return ex
+
+
+def _check_exits(sess, outs, me, T0, S0, post, label):
+    n_norm = n_exc = 0
+    for val, s1 in outs:
+        if isinstance(val, Raised):
+            n_exc += 1
+            ok = all(x in PR.PARSING_ERRORS for x in val.exc.name.split("|"))
+            sess.check("exc-class", s1.pc, z3.BoolVal(ok), val.exc.line, label=f"{label}:{val.exc.name}")
+            continue
+        n_norm += 1
+        post(val, s1)
+    sess.check("cover", [], z3.BoolVal(n_norm >= 1), 0, label=f"{label}:normal-exit-reachable(normal={n_norm},exceptional={n_exc})")
+    for val, s1 in outs:
+        if not isinstance(val, Raised):
+            sess.check("canary", s1.pc, z3.BoolVal(False), 0, label="ensures-False", expect_refuted=True)
+            break
+
+
+def target_parser_main_loop():
+    qual = "Parser.main_loop"
+
+    def run(sess: Session):
+        ex = _parser_executor(sess, contracts=("connection", "element"))
+        st = State()
+        me, T0, S0 = PR.new_parser(st)
+        outs = _pcall(ex, qual, st, me)
+
+        def post(val, s1):
+            T1, S1 = PR.cur(s1, me, "_tokens"), PR.cur(s1, me, "_stack")
+            sess.check("decreases", s1.pc, PR.progress_post(T1, T0), 0, label="tokens-strictly-consumed")
+            sess.check("post", s1.pc, PR.pushes_one_node(S1, S0), 0, label="stack = [node] + old stack")
+            sess.check("post", s1.pc, PR.stack_inv(S1), 0, label="StackInv")
+        _check_exits(sess, outs, me, T0, S0, post, "main_loop")
+    return (f"{PR.MOD}:{qual}", PR.MOD, qual, run)
+
+
+def target_parser_connection(opening: str, closing: str, cls: str):
+    qual = "Parser.connection"
+
+    def run(sess: Session):
+        ex = _parser_executor(sess, contracts=("main_loop",))
+        st = State()
+        me, T0, S0 = PR.new_parser(st, tokens_nonempty=True)
+        st.pc.append(PR.kind(z3.Select(T0.arr, T0.lo)) == PR.K[opening])
+        entry = {"S0": S0}
+
+        def inv1(ex_, s, e, ghost):
+            S, T = PR.cur(s, me, "_stack"), PR.cur(s, me, "_tokens")
+            return z3.And(PR.same_below(S, S0), S.lo <= S0.lo - 1, z3.Select(S.arr, S0.lo - 1) == z3.Select(T0.arr, T0.lo),
+                          PR.nodes_only(S, S.lo, S0.lo - 1), PR.progress_post(T, T0, strict=True))
+
+        def var1(ex_, s, ghost):
+            return PR.cur(s, me, "_tokens").length()
+        ex.loops[(qual, "not self.accept(Closing)")] = LoopSpec(invariant=inv1, variant=var1, modifies=["self._stack", "self._tokens:window"])
+
+        def inv2(ex_, s, e, ghost):
+            S = PR.cur(s, me, "_stack")
+            items = s.deref(s.loc["items"])
+            base = [PR.same_below(S, S0, frm=None), ]
+            # still above (or at) the opening token: everything above it is a node; collected items are nodes
+            return z3.And(S.hi == S0.hi, S.lo <= S0.lo - 1, PR.same_below(S, S0),
+                          z3.Select(S.arr, S0.lo - 1) == z3.Select(T0.arr, T0.lo), PR.nodes_only(S, S.lo, S0.lo - 1),
+                          PR.nodes_only(items) if hasattr(items, "arr") else z3.BoolVal(True), items.lo <= items.hi if hasattr(items, "arr") else z3.BoolVal(True))
+
+        def var2(ex_, s, ghost):
+            return PR.cur(s, me, "_stack").length()
+
+        def prep2(ex_, s):
+            it = s.deref(s.loc["items"])
+            if isinstance(it, PyList) and not it.items:
+                s.heap[s.loc["items"].addr] = PR.ListV.empty(PR.I, wrap=PR.Tok)
+        ex.loops[(qual, "self._stack")] = LoopSpec(invariant=inv2, variant=var2, modifies=["self._stack:window", "items", "item"], prepare=prep2)
+        outs = _pcall(ex, qual, st, me, args=[PR.TK.TokClass(PR.K[opening]), PR.TK.TokClass(PR.K[closing]), ClassV(cls)])
+
+        def post(val, s1):
+            T1, S1 = PR.cur(s1, me, "_tokens"), PR.cur(s1, me, "_stack")
+            sess.check("decreases", s1.pc, PR.progress_post(T1, T0), 0, label="tokens-strictly-consumed")
+            sess.check("post", s1.pc, PR.pushes_one_node(S1, S0), 0, label="stack = [node] + stack at entry (nothing below the opening bracket is touched)")
+        _check_exits(sess, outs, me, T0, S0, post, f"connection[{cls}]")
+    return (f"{PR.MOD}:{qual}[{cls}]", PR.MOD, qual, run)
+
+
+def target_parser_subcircuit():
+    qual = "Parser.subcircuit"
+
+    def run(sess: Session):
+        ex = _parser_executor(sess, contracts=("main_loop", "connection"))
+        st = State()
+        me, T0, S0 = PR.new_parser(st, tokens_nonempty=True)
+        st.pc.append(z3.Or(*[PR.kind(z3.Select(T0.arr, T0.lo)) == PR.K[k] for k in ("Identifier", "LBracket", "LParen")]))
+
+        def inv1(ex_, s, e, ghost):
+            S, T = PR.cur(s, me, "_stack"), PR.cur(s, me, "_tokens")
+            return z3.And(PR.same_below(S, S0), S.lo <= S0.lo, PR.nodes_only(S, S.lo, S0.lo), PR.progress_post(T, T0, strict=False))
+
+        def var1(ex_, s, ghost):
+            return PR.cur(s, me, "_tokens").length()
+        ex.loops[(qual, "type(self.peek(0)) not in [Comma, Colon, RCurly]")] = LoopSpec(invariant=inv1, variant=var1, modifies=["self._stack", "self._tokens:window"])
+
+        def inv2(ex_, s, e, ghost):
+            S = PR.cur(s, me, "_stack")
+            el = s.deref(s.loc["elements"])
+            return z3.And(PR.same_below(S, S0), S.lo <= S0.lo, PR.nodes_only(S, S.lo, S0.lo),
+                          PR.nodes_only(el) if hasattr(el, "arr") else z3.BoolVal(True), el.lo <= el.hi if hasattr(el, "arr") else z3.BoolVal(True))
+
+        def var2(ex_, s, ghost):
+            return PR.cur(s, me, "_stack").length()
+
+        def prep2(ex_, s):
+            it = s.deref(s.loc["elements"])
+            if isinstance(it, PyList) and not it.items:
+                s.heap[s.loc["elements"].addr] = PR.ListV.empty(PR.I, wrap=PR.Tok)
+        for hdr in ("not self.is_stack_empty()", "self.get_stack_length() > depth"):
+            ex.loops[(qual, hdr)] = LoopSpec(invariant=inv2, variant=var2, modifies=["self._stack:window", "elements", "con"], prepare=prep2)
+        outs = _pcall(ex, qual, st, me, args=[PR.Tok(fresh("keytok", PR.I))])
+
+        def post(val, s1):
+            T1, S1 = PR.cur(s1, me, "_tokens"), PR.cur(s1, me, "_stack")
+            sess.check("decreases", s1.pc, PR.progress_post(T1, T0), 0, label="tokens-strictly-consumed")
+            sess.check("frame", s1.pc, z3.And(S1.lo == S0.lo, PR.same_below(S1, S0)), 0, label="stack-is-exactly-the-stack-at-entry (a sub-circuit never takes elements from, or leaves elements in, the enclosing connection)")
+            ok = isinstance(val, type(NONE)) or isinstance(val, PR.Tok)
+            sess.check("post", s1.pc, z3.BoolVal(ok) if not isinstance(val, PR.Tok) else z3.Or(PR.kind(val.id) == PR.K["Series"], PR.kind(val.id) == PR.K["Parallel"]), 0, label="returns None or a connection")
+        _check_exits(sess, outs, me, T0, S0, post, "subcircuit")
+    return (f"{PR.MOD}:{qual}", PR.MOD, qual, run)
+
+
 def targets():
-    return [target_tokenizer_main_loop(), target_tokenizer_process()]
+    return [target_tokenizer_main_loop(), target_tokenizer_process(), target_parser_main_loop(),
+            target_parser_connection("LBracket", "RBracket", "Series"), target_parser_connection("LParen", "RParen", "Parallel"),
+            target_parser_subcircuit()]
